@@ -35,6 +35,12 @@ def setup():
 def replay(pid, path):
     """Re-executes the scenario of a violation file on the current tree and re-validates it."""
     v = json.load(open(path))
+    sub = v.get("sub", "script")
+    if sub not in ("script", "views", "big"):
+        # records produced by the table drivers, by generated programs, by the compiler or by a model over the source:
+        # the unit of replay is the check itself (same rows, same seed); it reports the violation again if it is still there
+        log("[replay] %s records are replayed by re-running the check (%s quick)" % (sub, pid))
+        return CHECKS[pid]("quick", int(os.environ.get("VERIF_SEED", "1") or 1))
     c = Check(pid, "quick", 0)
     c.dir = os.path.join(vlib.WORK, pid + "-replay")
     os.makedirs(c.dir, exist_ok=True)
